@@ -291,7 +291,16 @@ func (e *Engine) resolveTypeIn(p *types.Package, name string) types.Type {
 	return e.resolveType(name)
 }
 
-func (e *Engine) contractFor(key string) *Contract { return e.cs.Contracts[key] }
+func (e *Engine) contractFor(key string) *Contract {
+	if c, ok := e.cs.Contracts[key]; ok {
+		return c
+	}
+	// instantiations of generic functions share the contract of the generic: slices.Sort[[]uint32,uint32] -> slices.Sort
+	if i := strings.Index(key, "["); i > 0 {
+		return e.cs.Contracts[key[:i]]
+	}
+	return nil
+}
 
 // lookupFunc finds an SSA function by contract key.
 func (e *Engine) lookupFunc(key string) *ssa.Function {
